@@ -223,6 +223,18 @@ pub fn run(input: &mut dyn BufRead, out: &mut dyn Write, _args: &[String]) -> R 
                             if let Some(f) = filt {
                                 a = a.with_filter(crate::m_filter::tcp_filter(f));
                             }
+                            // "repeat": the analyzer is used for the same capture several times (init_pool again each time, as the
+                            // pool of the previous run has been shut down); the results of the LAST run are reported
+                            let reps = v["repeat"].as_u64().unwrap_or(1);
+                            let (mut tx, mut rx) = (tx, rx);
+                            for _ in 1..reps {
+                                a.init_pool(tx.clone()).expect("pool");
+                                let _ = a.analyze_pcap(&path, tx, None);
+                                while rx.recv_timeout(std::time::Duration::from_millis(300)).is_ok() {}
+                                let (t2, r2) = std::sync::mpsc::channel();
+                                tx = t2;
+                                rx = r2;
+                            }
                             a.init_pool(tx.clone()).expect("pool");
                             let res = a.analyze_pcap(&path, tx, None);
                             let st = a.stats().map(|s| json!({"dispatched": s.total_dispatched, "dropped": s.total_dropped}));
